@@ -1,5 +1,7 @@
 """Base class of all simulation worlds: one run = one plan = one exactly repeatable execution."""
 import gc
+import os
+import sys
 import hashlib
 import json
 import random
@@ -12,7 +14,8 @@ from . import net as N
 
 
 CURRENT = {"sched": None, "t0": 0.0, "hits": 0}
-BUSY_AFTER_S = 8.0       # a run normally takes 5-100 ms of wall time; two looks 8 s apart without any scheduler progress
+BUSY_AFTER_S = 8.0
+DEADLOCK_AFTER_S = 90.0       # a run normally takes 5-100 ms of wall time; two looks 8 s apart without any scheduler progress
 _monitor = None
 
 
@@ -28,12 +31,25 @@ def start_monitor():
     import time
 
     def watch():
+        seen = (None, None, None)
+        since = time.time()
         while True:
             time.sleep(1.0)
             sc = CURRENT["sched"]
             if sc is None or sc.killing:
+                seen = (None, None, None)
                 continue
             now = time.time()
+            state = (id(sc), sc.steps, sc.line_hits)
+            if state != seen:
+                seen, since = state, now
+            elif now - since > DEADLOCK_AFTER_S:
+                # nothing moved for a long time and the busy-loop exception did not help: a thread that holds the baton is
+                # blocked in a real primitive the simulator does not own. Nothing can be concluded from this process.
+                sys.stderr.write("HARNESS-ERROR pid %d: no scheduler progress for %d s (thread %r blocked outside the "
+                                 "simulator?)\n" % (os.getpid(), DEADLOCK_AFTER_S, getattr(sc.cur, "name", None)))
+                sys.stderr.flush()
+                os._exit(2)
             if now - CURRENT["t0"] < BUSY_AFTER_S:
                 continue
             if CURRENT.get("steps") != sc.steps or CURRENT.get("lines") != sc.line_hits:
